@@ -301,6 +301,28 @@ def run(ctx):
             for login in ((None, ('GU', 'GP')) if '401' in name else (None,)):
                 check_session(ctx, {'stream': 'session', 'name': name, 'url': 'http://a.example/x', 'replies': script,
                                     'max_redirects': m, 'login': login})
+    # credentials configured, the server refuses them for ever: hosts on non-default ports and IPv6 literals as well
+    # (the give-up logic must not depend on how the host is written)
+    for url in ('http://a.example:8080/x', 'https://a.example:8443/x', 'http://[::1]/x', 'http://[2001:db8::2]:8080/x', 'http://10.0.0.5:81/'):
+        for m in (0, 2):
+            for name in ('401-forever', '401-alt-302', 'location-on-401'):
+                check_session(ctx, {'stream': 'session', 'name': name, 'url': url, 'replies': strategies(3 * m + 60)[name],
+                                    'max_redirects': m, 'login': ('GU', 'GP')})
+        check_crawl(ctx, {'stream': 'crawl', 'name': '401-forever', 'url': url.replace('https:', 'http:'), 'replies': strategies(200)['401-forever'],
+                          'tries': 2, 'max_redirects': 1, 'login': ('GU', 'GP'), 'timeout': 10})
+    # error responses of every flavour, with and without Retry-After (seconds, HTTP-date, garbage): each one costs a try
+    import itertools
+    ra = [None, b'Retry-After: 1', b'Retry-After: 120', b'Retry-After: Fri, 31 Dec 1999 23:59:59 GMT', b'Retry-After: soon', b'retry-after: 0']
+    for tries in ((2, 3, 7) if thorough else (3,)):
+        for code in (429, 503, 500, 502, 504, 408):
+            for hdr in (ra if thorough or code in (429, 503) else ra[:2]):
+                script = [dict(rep(code), extra=[hdr] if hdr else []) for _ in range(40)]
+                check_crawl(ctx, {'stream': 'crawl', 'name': 'error-%d%s' % (code, '-retry-after' if hdr else ''), 'url': 'http://a.example/x',
+                                  'replies': script, 'tries': tries, 'max_redirects': 1, 'login': None, 'always_fail': True, 'timeout': 8})
+        mixed = [dict(rep(c), extra=[h] if h else []) for c, h in itertools.islice(itertools.cycle(
+            [(429, ra[1]), (503, ra[3]), (500, None), (503, ra[4]), (408, None), (429, ra[2]), (502, ra[1])]), 40)]
+        check_crawl(ctx, {'stream': 'crawl', 'name': 'error-mixed-retry-after', 'url': 'http://a.example/x', 'replies': mixed, 'tries': tries,
+                          'max_redirects': 1, 'login': None, 'always_fail': True, 'timeout': 8})
     for _ in range(ctx.scale(250, 8000)):
         m = rng.choice([0, 1, 2, 3, 4, 6, 20])
         check_session(ctx, {'stream': 'session', 'name': 'random', 'url': rng.choice(['http://a.example/x', 'http://u:p@a.example/x', 'https://b.example:8443/']),
